@@ -477,6 +477,7 @@ MockNamedValue MockSupport::returnValue()
 
 bool MockSupport::boolReturnValue()
 {
+    if (!lastActualFunctionCall_) return MockIgnoredActualCall::instance().returnBoolValue();
     return returnValue().getBoolValue();
 }
 
@@ -616,11 +617,13 @@ cpputest_ulonglong MockSupport::returnUnsignedLongLongIntValueOrDefault(cpputest
 
 const char* MockSupport::stringReturnValue()
 {
+    if (!lastActualFunctionCall_) return MockIgnoredActualCall::instance().returnStringValue();
     return returnValue().getStringValue();
 }
 
 double MockSupport::doubleReturnValue()
 {
+    if (!lastActualFunctionCall_) return MockIgnoredActualCall::instance().returnDoubleValue();
     return returnValue().getDoubleValue();
 }
 
@@ -650,16 +653,19 @@ void (*MockSupport::returnFunctionPointerValueOrDefault(void (*defaultValue)()))
 
 void* MockSupport::pointerReturnValue()
 {
+    if (!lastActualFunctionCall_) return MockIgnoredActualCall::instance().returnPointerValue();
     return returnValue().getPointerValue();
 }
 
 const void* MockSupport::constPointerReturnValue()
 {
+    if (!lastActualFunctionCall_) return MockIgnoredActualCall::instance().returnConstPointerValue();
     return returnValue().getConstPointerValue();
 }
 
 void (*MockSupport::functionPointerReturnValue())()
 {
+    if (!lastActualFunctionCall_) return MockIgnoredActualCall::instance().returnFunctionPointerValue();
     return returnValue().getFunctionPointerValue();
 }
 
